@@ -9,7 +9,7 @@ usage: seedcheck.py /tmp/seed-out/C01-a [--keep]
 4. every registered check is run against the patched scratch tree (QFSA_REPO)
 5. result copied to /verif/seeded/<id>/ (patch.diff, demonstration, meta.json)
 """
-import json, os, shutil, subprocess, sys, glob
+import json, os, shlex, shutil, subprocess, sys, glob
 
 ENV = dict(os.environ, GOFLAGS="-mod=mod", GOPROXY="off", GOSUMDB="off", GOTOOLCHAIN="local")
 SUITE = ["go", "test", "-vet=off", "-count=1", ".", "./internal/...", "./datadictionary/...", "./store/file/...", "./store/sql/...", "./config/..."]
@@ -35,7 +35,7 @@ def main():
         demo_rel = meta["demo_file"]
         demo_src = os.path.join(src, os.path.basename(demo_rel))
         shutil.copy(demo_src, os.path.join(wt, demo_rel))
-        demo_cmd = meta["demo_run"].split()
+        demo_cmd = shlex.split(meta["demo_run"])
         rc, out = sh(demo_cmd, wt)
         res["demo_passes_without_change"] = rc == 0
         if rc != 0:
